@@ -4,6 +4,7 @@ mod alloc;
 mod util;
 mod range;
 mod bytes;
+mod vecs;
 
 #[global_allocator]
 static GLOBAL: alloc::Tracking = alloc::Tracking;
@@ -34,6 +35,7 @@ fn main() {
     match driver.as_str() {
         "range" => range::run(&out, &tier, seed),
         "bytes" => bytes::run(&out, &tier, seed, &rest),
+        "vec" => vecs::run(&out, &tier, seed, &rest),
         _ => { eprintln!("unknown driver {}", driver); std::process::exit(2); }
     }
 }
